@@ -38,6 +38,17 @@ fn cap_braces(s: String) -> String {
 
 pub fn next(rng: &mut Rng) -> (String, Value) {
     match rng.below(16) {
+        0 if rng.chance(1, 4) => {
+            // small brace skeletons in every order, balanced or not, with a little filler: the
+            // compile-time balance check and the expansion loop must agree on what is well nested
+            let n = rng.range(1, 7);
+            let mut p = String::new();
+            for _ in 0..n {
+                p.push_str(rng.pick_str(&["{", "}", "{", "}", ",", "a", "b", "-1", ">=1", "*"]));
+            }
+            let ns: Vec<Value> = ["a", "b", "ab", "a-1", "b-2", "", "a,b"].iter().map(|n| codes(n)).collect();
+            ("patmatch".into(), json!({"p": codes(&p), "ns": ns}))
+        }
         0 => {
             let (p, names) = patterns::any(rng);
             let (p2, _) = patterns::any(rng);
